@@ -200,6 +200,14 @@ impl<'reg: 'rc, 'rc> RenderContext<'reg, 'rc> {
         }
     }
 
+    pub(crate) fn get_partial_block_depth(&self) -> isize {
+        self.partial_block_depth
+    }
+
+    pub(crate) fn set_partial_block_depth(&mut self, depth: isize) {
+        self.partial_block_depth = depth;
+    }
+
     pub(crate) fn set_indent_string(&mut self, indent: Option<Cow<'rc, str>>) {
         self.indent_string = indent;
     }
